@@ -10,6 +10,10 @@ K3  the chain: stub test case + symbolic fault plan -> REAL executor (processors
     access error.  Oracle: the manual's table applied to the verdict the documented protocol
     (harness.C01's independent model) gives for the plan.
 K4  invalid command lines -> exit code 64 and no exit identifier.                        [selector]
+K5  external preprocessor: every exit status.
+K6  "anything that prevents execution": errors of the SUITE file a case is run under (implicit
+    exactly.suite beside the case, or --suite FILE) and of the case file itself, through the REAL
+    MainProgram, in the three output modes.                                              [selector]
 """
 import pathlib
 from typing import List, Optional
@@ -510,6 +514,80 @@ def k4_invalid_usage(i: int) -> bool:
     return ob.post(rc == exp and first_out not in idents and first_err not in idents and out.value() == '')
 
 
+# ----------------------------------------------------------------------------- K6: errors that prevent execution
+
+# (name, suite text or None, {extra files: bytes}, case bytes, documented identifier)
+PREVENTERS = (
+    ('suite-unknown-section', b'[nonsense]\n', {}, b'[act]\n$ true\n', 'SYNTAX_ERROR'),
+    ('suite-invalid-conf-instruction', b'[conf]\nno-such-instruction x\n', {}, b'[act]\n$ true\n', 'SYNTAX_ERROR'),
+    ('suite-invalid-case-instruction', b'[setup]\nno-such-instruction x\n', {}, b'[act]\n$ true\n', 'SYNTAX_ERROR'),
+    ('suite-includes-missing-file', b'[setup]\nincluding missing.xly\n', {}, b'[act]\n$ true\n',
+     'FILE_ACCESS_ERROR'),
+    ('suite-not-utf8', b'[conf]\n\xff\xfe\n', {}, b'[act]\n$ true\n', 'FILE_ACCESS_ERROR'),
+    ('suite-includes-not-utf8', b'[setup]\nincluding bin.xly\n', {'bin.xly': b'env A = \xff\xfe\n'},
+     b'[act]\n$ true\n', 'FILE_ACCESS_ERROR'),
+    ('case-syntax-error', None, {}, b'[setup]\nno-such-instruction x\n[act]\n$ true\n', 'SYNTAX_ERROR'),
+    ('case-unknown-phase', None, {}, b'[nonsense]\n', 'SYNTAX_ERROR'),
+    ('case-includes-missing-file', None, {}, b'[setup]\nincluding missing.xly\n[act]\n$ true\n',
+     'FILE_ACCESS_ERROR'),
+    ('case-not-utf8', None, {}, b'[act]\n$ echo \xff\n', 'FILE_ACCESS_ERROR'),
+    ('case-includes-not-utf8', None, {'bin.xly': b'env A = \xff\xfe\n'},
+     b'[setup]\nincluding bin.xly\n[act]\n$ true\n', 'FILE_ACCESS_ERROR'),
+    ('case-is-a-directory', None, {'d.case/x': b''}, None, 'FILE_ACCESS_ERROR'),
+    ('case-validation-error', None, {}, b'[setup]\ncopy missing-file.txt\n[act]\n$ true\n', 'VALIDATION_ERROR'),
+)
+
+
+def _pre_k6(i: int, opt: int, explicit: bool) -> bool:
+    if not (0 <= i < len(PREVENTERS) and 0 <= opt <= 2):
+        return False
+    return not (explicit and PREVENTERS[i][1] is None)
+
+
+def k6_prevented(i: int, opt: int, explicit: bool) -> bool:
+    """
+    pre: _pre_k6(i, opt, explicit)
+    post: _
+    """
+    import os
+    from vsym import scratch
+    from exactly_lib.util.file_utils.std import StdOutputFiles
+    name, suite, extra, case, ident = ob.pick(PREVENTERS, i)
+    opt = ob.concrete_int(opt, 0, 2)
+    explicit = ob.concrete_bool(explicit)
+    work = scratch.new_dir('c02k6')
+    d = os.path.join(work, 'd')
+    os.mkdir(d)
+    for rel, data in extra.items():
+        path = os.path.join(d, rel)
+        os.makedirs(os.path.dirname(path), exist_ok=True)
+        with open(path, 'wb') as f:
+            f.write(data)
+    case_path = os.path.join(d, 'd.case' if case is None else 'the.case')
+    if case is not None:
+        with open(case_path, 'wb') as f:
+            f.write(case)
+    argv = list(((), ('--keep',), ('--act',))[opt])
+    if suite is not None:
+        suite_path = os.path.join(d, 'other.suite' if explicit else 'exactly.suite')
+        with open(suite_path, 'wb') as f:
+            f.write(suite)
+        if explicit:
+            argv += ['--suite', suite_path]
+    argv.append(case_path)
+    out, err = Sink(), Sink()
+    cwd = os.getcwd()
+    os.chdir(d)
+    try:
+        rc = _main_program().execute(argv, StdOutputFiles(out, err))
+    finally:
+        os.chdir(cwd)
+    scratch.remove(work)
+    if ob.case().get('oracle_bug'):
+        ident = 'SYNTAX_ERROR'  # seeded oracle error: every prevented execution is a syntax error
+    return ob.post(_outputs_ok(OPTIONS[opt], ident, rc, out.value(), err.value(), None, False, None, False))
+
+
 _MP = []
 
 
@@ -550,6 +628,21 @@ def obligations(tier: str) -> List[Ob]:
                          'tempfile.TemporaryFile at preprocessor.py: in-memory file')))
     obs.append(Ob(name='K5:seeded-oracle-error', fn='k5_preprocessor', case=dict(oracle_bug=True), kernel='K5',
                   bound='seeded: negative statuses counted as success', timeout=120, expect=ob.REFUTE))
+    obs.append(Ob(name='K6:prevented', fn='k6_prevented', case={}, kernel='K6', selector=True,
+                  bound='%d errors that prevent execution (%s) x 3 output modes x suite beside the case / --suite FILE'
+                        % (len(PREVENTERS), ', '.join(p[0] for p in PREVENTERS)),
+                  timeout=900, real=('exactly_lib.cli.main_program.MainProgram.execute',
+                                     'exactly_lib.processing.standalone.processor.Processor.process',
+                                     'exactly_lib.processing.standalone.result_reporting.TestSuiteParseErrorReporter.report',
+                                     'exactly_lib.test_suite.error_reporting.report_suite_parse_error',
+                                     'exactly_lib.processing.standalone.accessor_resolver.AccessorResolver.resolve',
+                                     'exactly_lib.processing.processors._SourceReader.apply',
+                                     'exactly_lib.section_document.impl.file_access.read_source_file'),
+                  stubs=('in-memory stdout/stderr',),
+                  entry='MainProgram.execute([--keep|--act] [--suite FILE] CASE)'))
+    obs.append(Ob(name='K6:seeded-oracle-error', fn='k6_prevented', case=dict(oracle_bug=True), kernel='K6',
+                  selector=True, bound='seeded: oracle expects SYNTAX_ERROR for everything', timeout=600,
+                  expect=ob.REFUTE))
     n, cells, cat = _fault_catalogue()
     for i, (fam, idx) in enumerate(cat):
         obs.append(Ob(
